@@ -25,9 +25,34 @@ LO, HI, W = -4.0, 4.0, 1.0
 NB = int((HI - LO) / W)
 
 
-def abf_config(F):
+def abf_config(F, inp=None):
     return (ctl.cv_d2(LO, HI, W) +
-            "abf {\n  colvars d2\n  fullSamples 1\n  minSamples 0\n  shared on\n  sharedFreq %d\n  outputFreq %d\n  integrate off\n}\n" % (F, 4 * F))
+            "abf {\n  colvars d2\n  fullSamples 1\n  minSamples 0\n  shared on\n  sharedFreq %d\n  outputFreq %d\n  integrate off\n%s}\n" % (
+                F, 4 * F, ("  inputPrefix %s\n" % inp) if inp else ""))
+
+
+def abf_prior_scenario(case, wd):
+    """a single, unshared ABF job whose output files the walkers of the group then read through inputPrefix"""
+    pr = case["input"]
+    s = ctl.header("same", extra="dt 1.0\ntemp 0.0")
+    s += "emit atoms off\nmodule\nprefix %s\nconfig <<EOC\n%sEOC\ninit\n" % (
+        os.path.join(wd, "prior"), ctl.cv_d2(LO, HI, W) + "abf {\n  colvars d2\n  fullSamples 1\n  minSamples 0\n  outputFreq 1000\n  integrate off\n}\n")
+    for t in range(len(pr["hist"])):
+        f = [[0.0, 0.0, 0.0] for _ in range(ctl.NATOMS)]
+        f[2][2] = pr["s"][t]
+        f[3][2] = -pr["s"][t]
+        s += ctl.pos_line(d2=pr["hist"][t]) + "\n" + "fext " + " ".join(fnum(x) for q in f for x in q) + "\nstep\n"
+    s += "endrun\n"
+    return s
+
+
+def read_multicol_1d(path):
+    v = []
+    for line in open(path):
+        if line.startswith("#") or not line.strip():
+            continue
+        v.append(line.split()[1])
+    return v
 
 
 def parse_grid(state, key, n):
@@ -45,7 +70,8 @@ def abf_walker_scenario(case, w, wd, t0=0, t1=None, load=False):
     t1 = T if t1 is None else t1
     prefix = os.path.join(wd, "w%d" % w)
     s = ctl.header("same", extra="dt 1.0\ntemp 0.0\nreplicas %s %d %d %d %d" % (case["rdir"], w, case["nw"], case["seed"] + w + 17 * t0, case["delay"]))
-    s += "emit atoms off\nmodule\nprefix %s\nconfig <<EOC\n%sEOC\n" % (prefix, abf_config(F))
+    inp = os.path.join(wd, "prior") if (case.get("input") and w in case["input"]["readers"]) else None
+    s += "emit atoms off\nmodule\nprefix %s\nconfig <<EOC\n%sEOC\n" % (prefix, abf_config(F, inp))
     if load:
         s += "inprefix %s\n" % prefix
     s += "init\n"
@@ -91,10 +117,24 @@ def run_abf(c, tier):
                 if t % F != 0 and (w, t) not in case["newruns"] and not any(v == w for (v, _t) in case["restarts"]):
                     case["outputs"].add((w, t))
 
+        # a third of the groups start from data collected earlier by a single job (inputPrefix), read by every
+        # walker or by walker 0 only: these data must appear exactly once in every walker's combined grids
+        # and in no walker's own contribution
+        case["input"] = None
+        if rng.random() < 0.34:
+            T0 = rng.randint(3, 12)
+            case["input"] = dict(hist=[ctl.dy(rng, LO - 0.5, HI + 0.5, 3) for _ in range(T0 + 1)], s=[ctl.dy(rng, -6, 6, 4) for _ in range(T0 + 1)],
+                                 readers=(list(range(nw)) if rng.random() < 0.7 else [0]))
+
     def do(case):
         wd = os.path.join(c.work, "abf%d" % case["idx"])
         os.makedirs(wd, exist_ok=True)
         case["rdir"] = wd
+        if case["input"]:
+            r0, ev0, sp0 = common.run_esim("plain", abf_prior_scenario(case, wd), wd, "prior", timeout=300)
+            case["prior_ok"] = r0["complete"] and os.path.exists(os.path.join(wd, "prior.count")) and os.path.exists(os.path.join(wd, "prior.grad"))
+            if not case["prior_ok"]:
+                return []
 
         def one(w):
             rs = sorted(t for (v, t) in case["restarts"] if v == w)
@@ -116,6 +156,30 @@ def run_abf(c, tier):
         c.count()
         nw, F, T = case["nw"], case["F"], case["T"]
         key = "abf:nw%d:F%d" % (nw, F) + (":after_walker_restart" if case["restarts"] else "")
+        ic = [0] * NB
+        isum = [0.0] * NB
+        if case["input"]:
+            key = "abf:with_input_data" + (":after_walker_restart" if case["restarts"] else "")
+            if not case.get("prior_ok"):
+                c.inconc("the job producing the input data did not complete")
+                continue
+            pr = case["input"]
+            fc = read_multicol_1d(os.path.join(case["rdir"], "prior.count"))
+            fg = read_multicol_1d(os.path.join(case["rdir"], "prior.grad"))
+            pc = [0] * NB
+            ps = [0.0] * NB
+            for t in range(1, len(pr["hist"])):
+                b = int(math.floor((pr["hist"][t] - LO) / W))
+                if 0 <= b < NB:
+                    pc[b] += 1
+                    ps[b] += pr["s"][t]
+            if len(fc) != NB or len(fg) != NB or [int(x) for x in fc] != pc or any(
+                    abs(float(fg[b]) - (-ps[b] / pc[b] if pc[b] else 0.0)) > 1e-12 * (1 + abs(ps[b])) for b in range(NB)):
+                c.inconc("input data files differ from what the producing job was fed: %s %s vs %s %s" % (fc, fg, pc, ps))
+                continue
+            ic = pc
+            # the library reads the printed average and multiplies it by the count
+            isum = [-float(fg[b]) * pc[b] for b in range(NB)]
         if any(not r["complete"] for r, ev, sp in outs):
             bad = [(r["sig"], r["timeout"], r["err"][-200:]) for r, ev, sp in outs if not r["complete"]]
             if any(b[0] for b in bad):
@@ -140,8 +204,8 @@ def run_abf(c, tier):
             saves = [e for e in ev if e["ev"] == "savestr"]
             for e in saves:
                 t = e["it"]   # exchange happened at the top of step t, before step t's own sample
-                gc = [0] * NB
-                gs = [0.0] * NB
+                gc = list(ic)
+                gs = list(isum)
                 for v in range(nw):
                     cc, ss = own(v, t - 1)
                     for b in range(NB):
@@ -189,6 +253,9 @@ def run_abf(c, tier):
             c.nontrivial("abf|nw%d|F%d|delay%d|newruns%d|restarts%d|%d" % (nw, F, case["delay"], len(case["newruns"]), len(case["restarts"]), case["idx"]))
             c.bump("abf_outputs_between_exchanges", len(case["outputs"]))
             c.bump("abf_walker_restarts", len(case["restarts"]))
+            if case["input"]:
+                c.bump("abf_groups_started_from_input_data", 1)
+                c.bump("abf_input_samples_counted_once", sum(ic))
             c.sample({"part": "shared ABF", "walkers": nw, "sharedFreq": F, "steps": T, "max_delay_us": case["delay"],
                       "run_boundaries": sorted(case["newruns"]), "exchanges_checked": nex}, cap=4)
 
